@@ -302,10 +302,22 @@ func runCheck(id, tier string) int {
 			inconclusive = append(inconclusive, fmt.Sprintf("native replay failed: %v\n%s", err, tail(out, 2000)))
 			continue
 		}
+		// data races are confirmed by running the threads truly concurrently under the race detector
+		raceSeen := map[int]bool{}
+		for j, i := range idxs {
+			if pends[i].v.ID == "datarace" {
+				_, rout, _ := RunNative(vd, rel, funcsByRel, []NativeTape{tapes[j]}, true)
+				raceSeen[j] = strings.Contains(rout, "DATA RACE")
+			}
+		}
 		for j, i := range idxs {
 			v := pends[i].v
 			nr := res[j]
 			failed := nr.Outcome == "assert" || nr.Outcome == "panic" || nr.Outcome == "hang"
+			if v.ID == "datarace" {
+				failed = raceSeen[j]
+				nr.Outcome, nr.ID = "race-detector", fmt.Sprintf("DATA RACE reported: %v", raceSeen[j])
+			}
 			validated++
 			if pends[i].kf != "" {
 				kf := P.known[pends[i].kf]
